@@ -35,8 +35,8 @@ var guardReadExceptions = map[string]string{
 	"Client.NegotiatedVersion|Client.negotiatedVersion": "documented as valid only after Start returned; Start's unlock happens-before the caller's read",
 	"Client.Protocol|Client.protocol":                   "read after this goroutine's own Start() call returned (lock release happens-before)",
 	"Client.Kill|Client.doneCtx":                        "read after address != nil was observed under the lock; doneCtx is written before address and never again",
-	"Client.Start$2|Client.ctxCancel":                   "goroutine created by Start while holding the lock, after the field was written; the field is never written again",
-	"Client.reattach$1|Client.ctxCancel":                "goroutine created by reattach while holding the lock, after the field was written; never written again",
+	"Client.Start|Client.ctxCancel":                     "goroutine created by Start while holding the lock, after the field was written; the field is never written again",
+	"Client.reattach|Client.ctxCancel":                  "goroutine created by reattach while holding the lock, after the field was written; never written again",
 	"Client.dialer|Client.address":                      "called by gRPC/net-rpc dial paths that start after Start returned; address is immutable once set",
 	"Client.dialer|Client.protocol":                     "immutable once Start returned",
 	"Client.getGRPCMuxer|Client.protocol":               "immutable once Start returned",
@@ -48,29 +48,29 @@ var guardReadExceptions = map[string]string{
 
 // fieldWriteExceptions: "Type.field" -> why an unlocked write outside a constructor is safe.
 var fieldWriteExceptions = map[string]string{
-	"cmdrunner.CmdRunner.pid":         "written once in Start, which the Client calls under Client.l before any reader exists",
-	"grpcmux.GRPCServerMuxer.sess":    "written by acceptSession before it closes sessionErrCh; readers wait on that channel (publication by channel close)",
-	"ServeConfig.VersionedPlugins":    "single-threaded start-up of Serve",
-	"ClientConfig.VersionedPlugins":   "written in Start under Client.l (lockset sees ClientConfig, not Client)",
-	"ClientConfig.Plugins":            "written in Start under Client.l",
-	"ClientConfig.TLSConfig":          "written in Start under Client.l",
-	"ClientConfig.MinPort":            "NewClient defaults: construction, before the client is shared",
-	"ClientConfig.MaxPort":            "NewClient defaults: construction",
-	"ClientConfig.StartTimeout":       "NewClient defaults: construction",
-	"ClientConfig.Stderr":             "NewClient defaults: construction",
-	"ClientConfig.SyncStdout":         "NewClient defaults: construction",
-	"ClientConfig.SyncStderr":         "NewClient defaults: construction",
-	"ClientConfig.AllowedProtocols":   "NewClient defaults: construction",
-	"ClientConfig.Logger":             "NewClient defaults: construction",
+	"cmdrunner.CmdRunner.pid":          "written once in Start, which the Client calls under Client.l before any reader exists",
+	"grpcmux.GRPCServerMuxer.sess":     "written by acceptSession before it closes sessionErrCh; readers wait on that channel (publication by channel close)",
+	"ServeConfig.VersionedPlugins":     "single-threaded start-up of Serve",
+	"ClientConfig.VersionedPlugins":    "written in Start under Client.l (lockset sees ClientConfig, not Client)",
+	"ClientConfig.Plugins":             "written in Start under Client.l",
+	"ClientConfig.TLSConfig":           "written in Start under Client.l",
+	"ClientConfig.MinPort":             "NewClient defaults: construction, before the client is shared",
+	"ClientConfig.MaxPort":             "NewClient defaults: construction",
+	"ClientConfig.StartTimeout":        "NewClient defaults: construction",
+	"ClientConfig.Stderr":              "NewClient defaults: construction",
+	"ClientConfig.SyncStdout":          "NewClient defaults: construction",
+	"ClientConfig.SyncStderr":          "NewClient defaults: construction",
+	"ClientConfig.AllowedProtocols":    "NewClient defaults: construction",
+	"ClientConfig.Logger":              "NewClient defaults: construction",
 	"ClientConfig.PluginLogBufferSize": "NewClient defaults: construction",
-	"UnixSocketConfig.socketDir":      "written in Start under Client.l through Client.unixSocketCfg",
-	"tls.Config.RootCAs":              "written in loadServerCert under Client.l, before any connection uses the config",
-	"tls.Config.ClientCAs":            "as above",
-	"yamux.Config.Logger":             "freshly created config, local to the constructor",
-	"yamux.Config.LogOutput":          "freshly created config, local to the constructor",
-	"plugin.StdioData.Data":           "stack-local message in StreamStdio",
-	"plugin.StdioData.Channel":        "stack-local message in StreamStdio",
-	"ReattachConfig.Pid":              "freshly built value in ReattachConfig()",
+	"UnixSocketConfig.socketDir":       "written in Start under Client.l through Client.unixSocketCfg",
+	"tls.Config.RootCAs":               "written in loadServerCert under Client.l, before any connection uses the config",
+	"tls.Config.ClientCAs":             "as above",
+	"yamux.Config.Logger":              "freshly created config, local to the constructor",
+	"yamux.Config.LogOutput":           "freshly created config, local to the constructor",
+	"plugin.StdioData.Data":            "stack-local message in StreamStdio",
+	"plugin.StdioData.Channel":         "stack-local message in StreamStdio",
+	"ReattachConfig.Pid":               "freshly built value in ReattachConfig()",
 }
 
 func isMutexType(t types.Type) bool {
@@ -354,7 +354,7 @@ func ruleGuardScoped(c *Ctx, keep func(string) bool) {
 				continue
 			}
 			if !a.write {
-				if reason, ok := guardReadExceptions[f.Name+"|"+fn]; ok {
+				if reason, ok := guardReadExceptions[rootName(f)+"|"+fn]; ok {
 					c.R.Except("R-GUARD", p.Pos(a.sel), f.Name, accessStr(a, fn), reason)
 					continue
 				}
